@@ -146,10 +146,15 @@ ARB = "history <= 4 ops: new, filler A = L(<=6 B, align<=4), filler B = L(<=8 B,
 AR_STUBS = "base allocator = stub VA (concrete-size heap objects 48/112/240 B, concrete just-in-time budget, logged grants); std::alloc::handle_alloc_error stubbed by panic"
 
 
+# chunk objects of 112/240 bytes must stay field-sensitive (CBMC's default limit is 64 array cells), DESIGN.md 2.5
+FS = ["--max-field-sensitivity-array-size", "256"]
+
+
 def A(mod, name, props, inst, tags=(), **kw):
     kw.setdefault("timeout_s", 1800)
     kw.setdefault("mem_gb", 8)
     kw.setdefault("bounds", ARB)
+    kw.setdefault("cbmc_args", FS)
     H("kani-arena", "%s::%s" % (mod, name), props, stubbing=True, inst=inst, unwind=6, note=AR_STUBS, tags=tags, **kw)
 
 
@@ -173,15 +178,28 @@ for name, inst, tags, tier in [
     A("step", name, STEP_PROPS + ["C07"], inst, tags=tags, tier=tier, mem_gb=7, timeout_s=2400)
 SWB = "history <= 4 ops: new, symbolic fillers A and B (every legal position of the 16-byte chunk), ONE operation whose new layout is CONCRETE and cannot fit (chunk switch certain; base allocator grants chunk 2 = 112 B); unwind 6"
 for name, inst, tags, tier in [
-    ("step_up1_switch_alloc", "up: allocate / allocate_zeroed / deallocate+allocate of L(24,8) => chunk 2", ["op0", "op5", "b1"], "quick"),
-    ("step_up1_switch_grow", "up: grow / grow_zeroed to L(20,4) => chunk 2", ["op2", "b1"], "quick"),
+    ("step_up1_switch_alloc", "up: allocate L(24,8) => chunk 2", ["op0", "b1"], "quick"),
+    ("step_up1_switch_zeroed", "up: allocate_zeroed L(24,8) => chunk 2", ["b1"], "thorough"),
+    ("step_up1_switch_dealloc_alloc", "up: deallocate(B) + allocate L(24,8) => chunk 2", ["op5", "b1"], "thorough"),
+    ("step_up1_switch_split", "up: split B, give back the upper part, allocate L(24,8) => chunk 2", ["op6", "b1"], "thorough"),
+    ("step_up1_switch_grow", "up: grow to L(20,4) => chunk 2", ["op2", "b1"], "quick"),
+    ("step_up1_switch_grow_zeroed", "up: grow_zeroed to L(20,4) => chunk 2", ["b1"], "thorough"),
     ("step_up1_switch_shrink_unfit", "up: shrink of an 8-byte block to L(8,16) (unfit alignment)", ["op4", "unfit"], "thorough"),
-    ("step_down1_switch_alloc", "down: allocate / allocate_zeroed / deallocate+allocate of L(24,8) => chunk 2", ["op0", "op5", "b1"], "quick"),
-    ("step_down1_switch_grow", "down: grow / grow_zeroed to L(20,4) => chunk 2", ["op2", "b1"], "thorough"),
+    ("step_down1_switch_alloc", "down: allocate L(24,8) => chunk 2", ["op0", "b1"], "quick"),
+    ("step_down1_switch_zeroed", "down: allocate_zeroed L(24,8) => chunk 2", ["b1"], "thorough"),
+    ("step_down1_switch_dealloc_alloc", "down: deallocate(B) + allocate L(24,8) => chunk 2", ["op5", "b1"], "thorough"),
+    ("step_down1_switch_grow", "down: grow to L(20,4) => chunk 2", ["op2", "b1"], "quick"),
     ("step_down8_switch_alloc", "down, MIN_ALIGN 8: allocate L(18,1) => chunk 2", ["op0", "b1"], "thorough"),
     ("step_up4_switch_grow_noshrink", "up, MIN_ALIGN 4, WithoutShrink: grow to L(24,2) => chunk 2", ["op2", "b1"], "thorough"),
 ]:
     A("step", name, STEP_PROPS + ["C12"], inst, tags=tags, tier=tier, mem_gb=8, timeout_s=2400, bounds=SWB)
+for name, inst, tier in [
+    ("step_up1_other_b0", "up: shrink / grow / deallocate+allocate of A, the block that is NOT the newest", "quick"),
+    ("step_down1_other_b0", "down: operations on the block that is not the newest", "quick"),
+    ("step_down4_other_nodealloc_b0", "down, MIN_ALIGN 4, WithoutDealloc: operations on the non-newest block", "thorough"),
+    ("step_up1_other_set_noshrink_b0", "up, SHRINKS = false: operations on the non-newest block", "thorough"),
+]:
+    A("step", name, STEP_PROPS + ["C07"], inst, tags=["op7", "op8", "op9", "b0"], tier=tier, mem_gb=7, timeout_s=2400)
 
 # C14 claim
 for name, inst, tags, tier in [
@@ -193,8 +211,8 @@ for name, inst, tags, tier in [
     ("claim_unallocated", "claim on an unallocated arena (GUARANTEED_ALLOCATED = false)", [], "quick"),
 ]:
     A("claim", name, ["C14"], inst, tags=tags, tier=tier, mem_gb=6, bounds="new, pre-claim block L(<=4,<=4), claim, every kind of request through the handle (any layout <=16 B / any usize), allocation + scope + nested claim through the guard, drop, allocation after; chunks <= 2; unwind 6")
-H("kani-arena", "claim::panic_claim_twice", ["C14"], kind="must_panic", expect_fail=[r"already_claimed"], stubbing=True, inst="second claim() on a claimed handle", unwind=6, timeout_s=900, mem_gb=4, note=AR_STUBS, bounds="1 chunk")
-H("kani-arena", "claim::panic_alloc_on_claimed", ["C14", "C07"], kind="must_panic", expect_fail=[r"error_behavior::panic::claimed"], stubbing=True, inst="panicking alloc / reserve on a claimed handle", unwind=6, timeout_s=900, mem_gb=4, note=AR_STUBS, bounds="1 chunk")
+H("kani-arena", "claim::panic_claim_twice", ["C14"], kind="must_panic", expect_fail=[r"already_claimed"], stubbing=True, cbmc_args=FS, inst="second claim() on a claimed handle", unwind=6, timeout_s=900, mem_gb=4, note=AR_STUBS, bounds="1 chunk")
+H("kani-arena", "claim::panic_alloc_on_claimed", ["C14", "C07"], kind="must_panic", expect_fail=[r"error_behavior::panic::claimed"], stubbing=True, cbmc_args=FS, inst="panicking alloc / reserve on a claimed handle", unwind=6, timeout_s=900, mem_gb=4, note=AR_STUBS, bounds="1 chunk")
 
 # C03 scopes
 SCB = "new, filler L(<=6,<=4) with a content byte, scope with a workload of two allocations (symbolic L(<=16,<=16), L(<=8,<=8); with budget the first is the concrete L(24,8) => chunk 2), leave, replay the same workload; chunks <= 2; unwind 6"
@@ -212,8 +230,11 @@ for name, inst, tags, tier in [
     ("scope_try_with_spill_up1", "try_alloc_try_with returning Err/Ok, slot spills into chunk 2", ["b1"], "quick"),
     ("scope_try_with_mut_fits_down4", "try_alloc_try_with_mut, slot fits, down, MIN_ALIGN 4", ["fits"], "thorough"),
     ("scope_try_with_fits_up1", "try_alloc_try_with, slot fits", ["fits"], "quick"),
+    ("scope_try_with_mut_bigerr_up1", "try_alloc_try_with_mut, error type larger than the value (Ok gives the slack back)", ["fits"], "quick"),
+    ("scope_try_with_mut_bigerr_down1", "same, down", ["fits"], "quick"),
+    ("scope_try_with_mut_bigerr_spill_up4", "same, MIN_ALIGN 4, slot spills into chunk 2", ["b1"], "thorough"),
 ]:
-    A("scope", name, ["C03"] + (["C18"] if "aligned" in name else []), inst, tags=tags, tier=tier, mem_gb=8, bounds=SCB)
+    A("scope", name, ["C03"] + (["C18"] if "aligned" in name else []) + (["C15"] if "try_with_mut" in name else []), inst, tags=tags, tier=tier, mem_gb=8, bounds=SCB)
 
 # C05 chunk release (logging stub checks every deallocate)
 C5B = "new -> <= 2 symbolic allocations that may create chunks 2 and 3 -> end; symbolic failure mask over the base-allocator calls; chunks <= 3 (down: 2); unwind 7"
@@ -283,6 +304,10 @@ for name, inst, tier in [
     ("entry_handles_down8", "handles, down, MIN_ALIGN 8", "thorough"),
     ("entry_twin_up1", "alloc(v) vs try_alloc(v)", "quick"),
     ("entry_twin_down1", "alloc(v) vs try_alloc(v), down", "thorough"),
+    ("entry_vec_typed_vs_dyn_up1", "BumpVec over &Bump vs over &dyn BumpAllocatorCoreScope: shrink_to_fit / into_boxed_slice", "thorough"),
+    ("entry_vec_typed_vs_dyn_nodealloc_up1", "same, DEALLOCATES = false, SHRINKS = true", "quick"),
+    ("entry_vec_typed_vs_dyn_nodealloc_down4", "same, down, MIN_ALIGN 4, DEALLOCATES = false", "quick"),
+    ("entry_vec_typed_vs_dyn_noshrink_down1", "same, down, SHRINKS = false", "thorough"),
 ]:
     A("entry", name, ["C17"], inst, tier=tier, mem_gb=6, bounds=C17B)
 
@@ -362,7 +387,7 @@ for name, props, inst, tags, tier in [
     A("vecs", name, props, inst, tags=tags, tier=tier, mem_gb=8, bounds="BumpVec with <= 4 elements in the 16-byte chunk, concrete shape, symbolic values / split point / follow-up; unwind 8")
 
 # C19 pool (sequentialised)
-H("kani-arena", "pool::pool_two_threads", ["C19"], stubbing=True, inst="2 logical threads, 4 scheduler steps (symbolic choice of the thread per step), then pool reset_to_start / reset / drop",
+H("kani-arena", "pool::pool_two_threads", ["C19"], stubbing=True, cbmc_args=FS, inst="2 logical threads, 4 scheduler steps (symbolic choice of the thread per step), then pool reset_to_start / reset / drop",
   bounds="2 logical threads, <= 4 pool operations, <= 2 arenas of one 48-byte chunk; real preemption NOT modelled", unwind=7, timeout_s=3000, mem_gb=16, note=AR_STUBS + "; std::sync::Mutex::lock stubbed by must-succeed try_lock")
 
 
